@@ -29,7 +29,10 @@ def main(argv):
         if hasattr(mod, 'translate'):
             mod.translate(ctx)
         common.prove(ctx, modules=getattr(mod, 'LEAN_MODULES', None), clean=(tier == 'thorough'))
-        mod.run(ctx)
+        # the implementation under test prints warnings/progress: keep stdout for the verdict lines only
+        import contextlib, io
+        with contextlib.redirect_stdout(io.StringIO()):
+            mod.run(ctx)
         return common.finish(ctx)
     except Exception:
         traceback.print_exc()
